@@ -182,10 +182,12 @@ package stick
 //@   propagates
 //@   requires cb: it != nil
 //@   ensures nilval: val == nil ==> r0 == 0 && err == nil
-//@   ensures notiter: val != nil && !iterk(ikind(val)) ==> err != nil && r0 == 0
-//@   ensures count: val != nil && iterk(ikind(val)) ==> 0 <= r0 && r0 <= rv_len(rv_ind(rv_of(val)))
+// C06/C16: a nil pointer is null too (an empty sequence: the else branch of a for loop), whatever it points to
+//@   ensures nilptr: nilptr(val) ==> r0 == 0 && err == nil
+//@   ensures notiter: val != nil && !nilptr(val) && !iterk(ikind(val)) ==> err != nil && r0 == 0
+//@   ensures count: val != nil && !nilptr(val) && iterk(ikind(val)) ==> 0 <= r0 && r0 <= rv_len(rv_ind(rv_of(val)))
 // C06: the count is zero exactly for an empty sequence (what selects the else branch of a for loop)
-//@   ensures empty: val != nil && iterk(ikind(val)) ==> (r0 == 0) == (rv_len(rv_ind(rv_of(val))) == 0)
+//@   ensures empty: val != nil && !nilptr(val) && iterk(ikind(val)) ==> (r0 == 0) == (rv_len(rv_ind(rv_of(val))) == 0)
 //@   loop 1 invariant 0 <= i && i <= ln && ln == rv_len(r) && loopOK(l, i, ln) && (rv_kind(r) == 23 || rv_kind(r) == 17) && rv_caniface(r)
 //@   loop 1 decreases ln - i
 // (the map branch walks the entries with a MapIter: its ghost position is the number of entries delivered so far)
@@ -222,15 +224,16 @@ package stick
 //@   loop 1 decreases len(sf.Index) - rangeindex
 //@ func stick.Len
 //@   ensures nilval: val == nil ==> r0 == 0 && err == nil
-//@   ensures agree: val != nil ==> (err == nil) == iterk(ikind(val))
-//@   ensures len: val != nil && err == nil ==> r0 == rv_len(rv_ind(rv_of(val)))
+//@   ensures nilptr: nilptr(val) ==> r0 == 0 && err == nil
+//@   ensures agree: val != nil && !nilptr(val) ==> (err == nil) == iterk(ikind(val))
+//@   ensures len: val != nil && !nilptr(val) && err == nil ==> r0 == rv_len(rv_ind(rv_of(val)))
 //@   ensures nonneg: r0 >= 0
 //@ func stick.IsArray
 //@   ensures spec: result == (ikind(val) == 23 || ikind(val) == 17)
 //@ func stick.IsMap
 //@   ensures spec: result == (ikind(val) == 21)
 //@ func stick.IsIterable
-//@   ensures spec: result == (val == nil || iterk(ikind(val)))
+//@   ensures spec: result == (val == nil || nilptr(val) || iterk(ikind(val)))
 
 //@ func stick.Equal
 //@   ensures spec: result == (strspec(left) == strspec(right))
@@ -241,7 +244,7 @@ package stick
 // is an existential over the iteration and is not stated.)
 //@   propagates
 //@   inlines stick.Iterate
-//@   ensures notfound: r1 == nil && !r0 && haystack != nil && (ikind(haystack) == 23 || ikind(haystack) == 17) ==> (forall j :: 0 <= j && j < rv_len(rv_ind(rv_of(haystack))) ==> !(strspec(rv_iface(rv_index(rv_ind(rv_of(haystack)), j))) == strspec(needle)))
+//@   ensures notfound: r1 == nil && !r0 && haystack != nil && !nilptr(haystack) && (ikind(haystack) == 23 || ikind(haystack) == 17) ==> (forall j :: 0 <= j && j < rv_len(rv_ind(rv_of(haystack))) ==> !(strspec(rv_iface(rv_index(rv_ind(rv_of(haystack)), j))) == strspec(needle)))
 //@   loop stick.Iterate:1 invariant search: !res ==> (forall j :: 0 <= j && j < i ==> !(strspec(rv_iface(rv_index(r, j))) == strspec(needle)))
 //@   loop stick.Iterate:2 invariant true
 //@ func stick.Contains$1
